@@ -35,7 +35,7 @@ def media(ct):
 class Integration:
     """one integration with its dispatcher; register(methods) -> post(path, body, content_type)"""
 
-    def __init__(self, kind, path, status_by_error=None, endpoint='', endpoint_mode='plain'):
+    def __init__(self, kind, path, status_by_error=None, endpoint='', endpoint_mode='plain', target='endpoint'):
         """endpoint: '' = the integration's main endpoint, '/x' = an additional endpoint added with add_endpoint (aiohttp, flask)"""
         self.kind = kind
         self.path = path
@@ -71,6 +71,13 @@ class Integration:
                 self.endpoint = endpoint + '/rpc2'
             else:
                 raise ValueError('unsupported endpoint mode %s for %s' % (endpoint_mode, kind))
+        self.main_dispatcher = self.rpc.dispatcher
+        if target == 'main':
+            # additional endpoints exist (before and after), but the request goes to the main endpoint
+            if not kind.startswith('werkzeug'):
+                self.rpc.add_endpoint('/zz-after')
+            self.dispatcher = self.main_dispatcher
+            self.endpoint = ''
         self._ready = False
 
     def ready(self):
